@@ -14,7 +14,7 @@ ASSUMPTIONS = [
     'length: sample sizes 2..3, the segment lengths are symbolic square roots s_i >= 0, s_i^2 = |E_i+1 - E_i|^2',
 ]
 OUTSIDE = ['degrees > 3 (quick) / 4 (thorough)', 'rational surfaces beyond (1,2)/(2,1), rational volumes beyond (1,1,1)', 'length bounds for sample sizes > 3 (products of square roots: z3 answers unknown)']
-BOUNDS = {'quick': 'curves p<=3 KQ patterns (+unclamped), surfaces (1,2),(2,1),(2,2), volumes (1,1,2); bbox n<=4 points; ends; length ss 2,3; backwards-sampled segments inside the bounding box; ends / bbox after the caller edits the list it assigned',
+BOUNDS = {'quick': 'curves p<=3 KQ patterns (+unclamped), surfaces (1,2),(2,1),(2,2), volumes (1,1,2); bbox n<=4 points; ends; length ss 2,3; backwards-sampled segments inside the bounding box; ends / bbox after the caller edits the list it assigned; knot vectors times a symbolic factor; copies inspected before the source',
           'thorough': 'curves p<=4, more patterns; surfaces (3,2) non-rational'}
 
 
